@@ -158,7 +158,28 @@ var errEngine = errors.New("xpath engine failure")
 // ignore_error): the comparison is skipped for it, never guessed.
 var ErrUnspecified = errors.New("outcome not specified by the documented rules")
 
-func selectNodes(cur cursor, expr string) (res []cursor, err error) {
+// exprKind classifies an xpath by the type of value it evaluates to, on a privately compiled copy and an empty document ("" when the
+// engine cannot tell)
+func exprKind(expr string) (kind string) {
+	defer func() {
+		if r := recover(); r != nil {
+			kind = ""
+		}
+	}()
+	e, err := xpath.Compile(expr)
+	if err != nil {
+		return ""
+	}
+	switch e.Evaluate(xmlquery.CreateXPathNavigator(&xmlquery.Node{Type: xmlquery.DocumentNode})).(type) {
+	case bool:
+		return "bool"
+	case float64, string:
+		return "scalar"
+	}
+	return ""
+}
+
+func selectNodes(cur cursor, expr string, all bool) (res []cursor, err error) {
 	if expr == "." {
 		return []cursor{cur}, nil
 	}
@@ -178,8 +199,23 @@ func selectNodes(cur cursor, expr string) (res []cursor, err error) {
 		}
 		start = cur.attrNav.Copy()
 	}
+	// a boolean valued expression ("a > 5" rather than ".[a > 5]") selects no nodes: its use as an anchor is an error; a number or
+	// string valued one selects nothing
+	switch exprKind(expr) {
+	case "bool":
+		// all matches wanted (array child): an error. A single match wanted: the engine yields the context node for as long as the
+		// expression is true, which is more than one match; none when it is false.
+		if all {
+			return nil, errors.New("not a node selecting expression")
+		}
+		if b, _ := e.Evaluate(start.Copy()).(bool); b {
+			return nil, errors.New("more than one match (boolean expression)")
+		}
+		return nil, nil
+	case "scalar":
+		return nil, nil
+	}
 	it := e.Select(start)
-	var prev *xmlquery.Node
 	for it.MoveNext() {
 		nav := it.Current().(rnav)
 		c := cursor{n: nav.Current()}
@@ -190,10 +226,7 @@ func selectNodes(cur cursor, expr string) (res []cursor, err error) {
 				}
 			}
 			c.attrNav = nav.Copy()
-		} else if c.n == prev {
-			return nil, errors.New("not a node selecting expression")
 		}
-		prev = c.n
 		res = append(res, c)
 		if len(res) > 100000 {
 			return nil, errors.New("runaway selection")
@@ -280,7 +313,7 @@ func (ev *Evaluator) eval(d *TDecl, cur cursor, anchored bool, isFinal bool) (in
 		if err != nil {
 			return nil, ErrUnspecified
 		}
-		nodes, err := selectNodes(cur, xp)
+		nodes, err := selectNodes(cur, xp, false)
 		if err != nil {
 			return nil, fmt.Errorf("xpath failed: %v", err)
 		}
@@ -341,7 +374,7 @@ func (ev *Evaluator) eval(d *TDecl, cur cursor, anchored bool, isFinal bool) (in
 			}
 			nodes := []cursor{cur}
 			if has {
-				nodes, err = selectNodes(cur, xp)
+				nodes, err = selectNodes(cur, xp, true)
 				if err != nil {
 					return nil, fmt.Errorf("xpath failed: %v", err)
 				}
